@@ -646,6 +646,15 @@ theorem moore_eq (t : IntTy) (hb : 1 ≤ t.bits) (p : Pos) (hx : t.lo < p.x ∧ 
     pred_ok t hb (by omega) (by omega), incr_ok t hb (by omega) (by omega)]
   rfl
 
+/-- for unsigned (and promoted) coordinate types there is no undefined behaviour at all: every neighbour coordinate is the
+mathematical one reduced modulo `2^bits`, wherever `p` is ("no range checking is performed") -/
+theorem neighbours_wrapping (t : IntTy) (htr : t.trapping = false) (p : Pos) :
+    neumann t p = .ok [⟨t.wrap (p.x - 1), p.y⟩, ⟨t.wrap (p.x + 1), p.y⟩, ⟨p.x, t.wrap (p.y - 1)⟩, ⟨p.x, t.wrap (p.y + 1)⟩] ∧
+      moore t p = .ok [⟨t.wrap (p.x - 1), p.y⟩, ⟨t.wrap (p.x + 1), p.y⟩, ⟨p.x, t.wrap (p.y - 1)⟩, ⟨p.x, t.wrap (p.y + 1)⟩,
+        ⟨t.wrap (p.x - 1), t.wrap (p.y - 1)⟩, ⟨t.wrap (p.x - 1), t.wrap (p.y + 1)⟩, ⟨t.wrap (p.x + 1), t.wrap (p.y - 1)⟩,
+        ⟨t.wrap (p.x + 1), t.wrap (p.y + 1)⟩] := by
+  simp [neumann, moore, pred, incr, htr]
+
 /-- on the edge of an `int` / `long` coordinate type the neighbour computation overflows (undefined; "no range checking is performed") -/
 theorem neighbours_edge_overflow (t : IntTy) (htr : t.trapping = true) (p : Pos)
     (h : p.x = t.lo ∨ p.x = t.hi ∨ p.y = t.lo ∨ p.y = t.hi) :
